@@ -42,6 +42,28 @@ def orphansKilled : List Out → Bool
      | .snap l os => os.all (fun t => older.any (isReconKill l t))
      | _ => true) && orphansKilled older
 
+/-- The part of a log (newest first) that is NEWER than the most recent RECONCILE call of life `l`
+    (the whole log if there is none). -/
+def sinceReconcile (l : Nat) : List Out → List Out
+  | [] => []
+  | o :: older =>
+    match o with
+    | .reconcile l' => if l' == l then [] else o :: sinceReconcile l older
+    | _ => o :: sinceReconcile l older
+
+/-- Orphans killed, per reconciliation ROUND: whenever the system is quiescent in life `l`, every task of an
+    earlier life that the master still holds alive has received a KILL from life `l` AFTER the most recent
+    RECONCILE call of that life — i.e. the KILL answers the LATEST reconciliation answer that reported the
+    task alive, not some earlier one. A task that survives its KILL (the call was lost, the agent is
+    partitioned, the task is stuck in TASK_KILLING) is therefore killed again after every re-subscription:
+    "one KILL per orphan" is not enough. Implies `orphansKilled` (`orphansKilled_of_eachRound`). -/
+def orphansKilledEachRound : List Out → Bool
+  | [] => true
+  | o :: older =>
+    (match o with
+     | .snap l os => os.all (fun t => (sinceReconcile l older).any (isReconKill l t))
+     | _ => true) && orphansKilledEachRound older
+
 /-- Owned spared: no KILL caused by a reconciliation update hits a task that is locked in the roster. -/
 def ownedSpared (log : List Out) : Bool :=
   log.all (fun o => match o with | .kill _ _ (.update .recon) owned => !owned | _ => true)
@@ -53,7 +75,8 @@ def updatesNeverKill (log : List Out) : Bool :=
 /-- Every SUBSCRIBED is followed by an implicit RECONCILE is not a log property (it needs the events);
     the monitor checks it. The conjunction below is what `specOnImpl` reports. -/
 def all (log : List Out) : Bool :=
-  sameIdentity log && persistedOnce log && orphansKilled log && ownedSpared log && updatesNeverKill log
+  sameIdentity log && persistedOnce log && orphansKilled log && orphansKilledEachRound log && ownedSpared log &&
+  updatesNeverKill log
 
 /-! ## the configuration the code has NOW (from the regenerated go/ast facts) -/
 
